@@ -56,7 +56,8 @@ var (
 	haproxyReqCaptureFormAll    = "http://localhost:" + haproxyManagePort + "/capture_req_all"
 )
 
-var regexToFindPathParameters = regexp.MustCompile(`/\{[a-zA-Z0-9-_]+\}`)
+// Regex for a path parameter in host position, e.g. {tenant}.example.com
+const regexToReplaceHostParameters string = "[^/.]+"
 
 type HAProxyEndpointData struct {
 	Endpoint     string
@@ -138,19 +139,35 @@ func HaproxyEndpointFormat(
 	requirements *stream_types.ProcessorRequirement,
 ) *HAProxyEndpointData {
 	log.Trace().Msgf("Original URL: %v", url)
-	url = strings.ReplaceAll(url, ".", `\.`)
-	formattedURL := url
 	wildcardLiteral := "/*"
-	var hasWildcard bool
-	if strings.HasSuffix(formattedURL, wildcardLiteral) {
-		hasWildcard = true
-		formattedURL = strings.TrimSuffix(formattedURL, wildcardLiteral)
+	hasWildcard := strings.HasSuffix(url, wildcardLiteral)
+	if hasWildcard {
+		url = strings.TrimSuffix(url, wildcardLiteral)
+	}
+
+	// The pattern is translated part by part so that every literal character of the configured
+	// URL is matched literally (all regex metacharacters are quoted, not only dots) and every
+	// `{parameter}` - whatever its name - becomes a one-segment (or one-host-label) expression.
+	segments := strings.Split(url, "/")
+	hostLabels := strings.Split(segments[0], ".")
+	for i, label := range hostLabels {
+		if isPathParameter(label) {
+			hostLabels[i] = regexToReplaceHostParameters
+		} else {
+			hostLabels[i] = regexp.QuoteMeta(label)
+		}
+	}
+	formattedURL := strings.Join(hostLabels, `\.`)
+	for _, segment := range segments[1:] {
+		if isPathParameter(segment) {
+			formattedURL += RegexToReplacePathParameters
+		} else {
+			formattedURL += "/" + regexp.QuoteMeta(segment)
+		}
+	}
+	if hasWildcard {
 		formattedURL += RegexToReplaceWildcard
 	}
-	formattedURL = regexToFindPathParameters.ReplaceAllString(
-		formattedURL,
-		RegexToReplacePathParameters,
-	)
 	log.Trace().Msgf("Formatted URL: %v", formattedURL)
 	result := strings.Join([]string{method, formattedURL}, delimiter)
 	if !hasWildcard {
@@ -160,6 +177,10 @@ func HaproxyEndpointFormat(
 		Endpoint:     result,
 		Requirements: requirements,
 	}
+}
+
+func isPathParameter(urlPart string) bool {
+	return len(urlPart) > 2 && strings.HasPrefix(urlPart, "{") && strings.HasSuffix(urlPart, "}")
 }
 
 func ManageHAProxyEndpoints(haproxyEndpoints *HAProxyEndpointsRequest) error {
